@@ -407,6 +407,12 @@ class LinEval:
             if any(v is True for v in vs):
                 return True
             return False if all(v is False for v in vs) else None
+        if n.startswith('cast:') and n[5:] in ('usize', 'u64', 'u32', 'i64', 'i32', 'isize', 'u128', 'i128') and len(a) == 1:
+            # `k as usize` of a concrete non-negative integer that fits every one of these types is the identity
+            x = self.ev(a[0])
+            if isinstance(x, int) and not isinstance(x, bool) and 0 <= x < 2 ** 31:
+                return x
+            return self.opaque(t, 'cast')
         if n in ('from_int', 'from_float'):
             try:
                 return const_form(self.num(a[0]))
